@@ -11,13 +11,21 @@ import (
 func (r *Result) AddSched(st sched.Stats, vs []sched.Violation) {
 	desc := fmt.Sprintf("%s: %s; completed %s; %d threads; distinct outcomes %d; max steps %d; ends %v; fair rotations %d",
 		st.Scenario, strings.Join(st.PerBound, ", "), st.Completed, st.Threads, st.Outcomes, st.MaxSteps, st.Ends, st.Rotations)
-	r.Scenarios = append(r.Scenarios, Stats{Scenario: desc, States: st.Executions, Transitions: st.Steps, Outcomes: int64(st.Outcomes), Capped: st.Capped, MaxDepth: st.MaxSteps})
+	if i, _ := Shard(); i == 0 {
+		desc = "(shard 0 only) " + desc
+	}
+	if i, _ := Shard(); i == 0 || len(vs) > 0 {
+		r.Scenarios = append(r.Scenarios, Stats{Scenario: desc, States: st.Executions, Transitions: st.Steps, Outcomes: int64(st.Outcomes), Capped: st.Capped, MaxDepth: st.MaxSteps})
+	}
 	r.Evaluations += st.Executions
 	r.States += st.Executions
 	r.Transitions += st.Steps
 	r.Distinct += int64(st.Outcomes)
 	if st.Capped != "" {
 		r.Caps = append(r.Caps, st.Scenario+": "+st.Capped)
+	}
+	if st.Divergences > 0 {
+		r.Caps = append(r.Caps, fmt.Sprintf("%s: %d subtrees dropped because the replayed prefix diverged (nondeterminism outside the harness, e.g. map iteration order)", st.Scenario, st.Divergences))
 	}
 	if len(r.Samples) < 6 {
 		r.Samples = append(r.Samples, st.Samples...)
